@@ -188,3 +188,26 @@ Theorem C15_matrix_compare_def : forall (a b : mat R) (tol : R),
   close_to_m RO a b tol = ((nrows a =? nrows b) && (ncols a =? ncols b) && close_to_v RO (data a) (data b) tol) /\
   eq_m RO a b = ((nrows a =? nrows b) && (ncols a =? ncols b) && eq_v RO (data a) (data b)).
 Proof. exact matrix_compare_def. Qed.
+
+(** ** Tie A: the dimension logic of the model IS the source ([Matrix::size], [reshape_mut], [reshape]).
+    [Generated/shape_loops.v] is regenerated on every run from src/linalg/array/matrix.rs by the statement-level
+    translator (tools/rsexpr.py, target tools/tiea/shape_loops.py): the assignments to [self.nrows] / [self.ncols], the
+    asserts and the [panic!] of the four-way case split; [i32] / [usize] live in [Z], a panic (assert, zero divisor) is
+    [None]; a [&mut self] method is rendered as the fields (nrows, ncols) after the call.  [reshape] ends in
+    [Matrix::new], a parameter of the generated text instantiated by the model's [new] ([Matrix::new] itself goes through
+    [TryInto] and a [match]: outside the subset, the target checks that it is still refused). *)
+From Compute Require Import Base.RsExpr Generated.shape_loops Proofs.TieA_shape_loops.
+Theorem C15_model_is_source_size :
+  forall (T : Type) (O : Ops T) (nr nc : nat), src_size O (Z.of_nat nr) (Z.of_nat nc) = Z.of_nat (nr * nc).
+Proof. exact @tiea_size. Qed.
+Theorem C15_model_is_source_reshape_mut :
+  forall (T : Type) (O : Ops T) (nr nc : nat) (r c : Z),
+    src_reshape_mut O (Z.of_nat nr) (Z.of_nat nc) r c
+    = option_map (fun p : nat * nat => (Z.of_nat (fst p), Z.of_nat (snd p))) (reshape_dims (nr * nc) r c).
+Proof. exact @tiea_reshape_mut. Qed.
+Theorem C15_model_is_source_reshape :
+  forall (T : Type) (O : Ops T) (nr nc : nat) (d : list T) (r c : Z),
+    src_reshape O (fun a r' c' => option_map (fun m : mat T => (Z.of_nat (nrows m), Z.of_nat (ncols m), data m)) (new a r' c'))
+                d (Z.of_nat nr) (Z.of_nat nc) r c
+    = option_map (fun m : mat T => (Z.of_nat (nrows m), Z.of_nat (ncols m), data m)) (reshape (mkMat nr nc d) r c).
+Proof. exact @tiea_reshape. Qed.
